@@ -1,6 +1,7 @@
 (* C09_Props.v — property C09 (the trie behaves as a string-keyed map with exact
-   prefix queries), stated over the model of C09_Model.v (the code after the
-   repairs #22 and #23 of fixes/builder-c04c09).  Only statements here; each is
+   prefix queries), stated over the model of C09_Model.v (trie.go as of /repo
+   commit 7fb0178: after the repairs #22 Get/isValid, #23 collect/raw bytes and
+   #24 Put counting, inserting and testing membership under one lock).  Only statements here; each is
    closed by [exact] of a lemma of C09_Proofs.v and followed by Print Assumptions.
 
    Every theorem is for every value type V, keys that are arbitrary lists of
@@ -17,7 +18,8 @@
      Get/Contains report exactly the keys put, latest value     C09_get_is_latest, C09_contains_iff_put,
        (a proper prefix / an extension is not reported)          C09_prefix_or_extension_not_reported,
                                                                  one-step laws C09_get_put_same / _other (every tree)
-     Size = number of distinct keys                              C09_size_is_distinct_keys
+     Size = number of distinct keys                              C09_size_is_distinct_keys  (Put counts with the
+                                                                 unexported helper: C09_put_membership_test_is_contains)
      Keys: every stored key once, unaltered, byte-lex order      C09_keys_sorted_complete
      StartsWith(p): the stored keys beginning with p, in order   C09_starts_with_spec
      LongestPrefix(q): longest stored prefix of q, empty if none C09_longest_prefix_spec
@@ -100,6 +102,14 @@ Theorem C09_size_is_distinct_keys :
   n (state_after ops) = Z.of_nat (length ks).
 Proof. intros V. exact size_is_distinct_keys. Qed.
 Print Assumptions C09_size_is_distinct_keys.
+
+(* the membership test Put now makes under its own lock (the unexported
+   t.contains, which reads the node) answers exactly as the exported Contains
+   (which goes through Get) — on every tree, every key *)
+Theorem C09_put_membership_test_is_contains :
+  forall (V : Type) (t : @tst V) (k : key), contains_locked t k = contains t k.
+Proof. intros V. exact contains_locked_eq. Qed.
+Print Assumptions C09_put_membership_test_is_contains.
 
 (* Keys: strictly increasing bytewise-lexicographically (hence each once), and
    exactly the keys that were put — as the very byte lists that were put *)
